@@ -422,29 +422,42 @@ impl LogLens {
                     run.key = if k == "B" { srv::ENC_KEY_B.into() } else { srv::ENC_KEY_A.into() };
                 }
                 let wrong_key = run.scn.cfg.encryption && run.key != srv::ENC_KEY_A;
-                if let Err(e) = self.start_inc(run) {
-                    if wrong_key {
-                        // C19: with another key the server may refuse to start - it must never serve the old data as valid
-                        return Ok(json!({"ev":"restart_wrong_key","res":res,"outcome":["start_failed"],"fatal_ok":format!("start failed: {e}"),"end":true}));
+                if wrong_key {
+                    // C19: a start with ANOTHER key. The encrypted journal is undecryptable: that must be reported as an error
+                    // (the start fails); if the server comes up all the same it must not hand out the old data. Then the server
+                    // is started with the RIGHT key again: catalogue and data must be exactly what they were.
+                    let mut outcome: Vec<&str> = vec![];
+                    match self.start_inc(run) {
+                        Err(_) => outcome.push("start_failed"),
+                        Ok(()) => {
+                            outcome.push("started");
+                            for pp in 1..=run.scn.parts {
+                                let obsc = Consumer::new(Identifier::numeric(9999).unwrap());
+                                let o = match self.poll(run, pp, &obsc, &PollingStrategy::offset(0), 1000) {
+                                    Ok(pm) if pm.messages.is_empty() => "empty",
+                                    Ok(pm) => {
+                                        // ciphertext handed out as if it were content, or - impossible - the plaintext
+                                        if pm.messages.iter().any(|m| m.payload.len() >= 3 && &m.payload[0..3] == b"<<M") { "plaintext" } else { "messages" }
+                                    }
+                                    Err(_) => "error",
+                                };
+                                outcome.push(o);
+                            }
+                            drop(run.client.take());
+                            if let Some(inc) = run.inc.take() {
+                                let _ = srv::stop(inc, true);
+                            }
+                        }
                     }
+                    run.key = srv::ENC_KEY_A.into();
+                    if let Err(e) = self.start_inc(run) {
+                        return Ok(json!({"ev":"restart","mode":mode,"res":res,"wrong_key_outcome":outcome,"fatal":format!("start with the right key failed after a start with another key: {e}")}));
+                    }
+                    return Ok(json!({"ev":"restart","mode":mode,"res":res,"wrong_key_outcome":outcome}));
+                }
+                if let Err(e) = self.start_inc(run) {
                     // start-up failed: this is data (the event has no sweep and the scenario ends here)
                     return Ok(json!({"ev":"restart","mode":mode,"res":res,"fatal":format!("start failed: {e}")}));
-                }
-                if wrong_key {
-                    let mut outcome = vec![];
-                    for pp in 1..=run.scn.parts {
-                        let obsc = Consumer::new(Identifier::numeric(9999).unwrap());
-                        let o = match self.poll(run, pp, &obsc, &PollingStrategy::offset(0), 1000) {
-                            Ok(pm) if pm.messages.is_empty() => "empty",
-                            Ok(pm) => {
-                                // ciphertext handed out as if it were content, or - impossible - the plaintext
-                                if pm.messages.iter().any(|m| m.payload.len() >= 3 && &m.payload[0..3] == b"<<M") { "plaintext" } else { "messages" }
-                            }
-                            Err(_) => "error",
-                        };
-                        outcome.push(o);
-                    }
-                    return Ok(json!({"ev":"restart_wrong_key","res":res,"outcome":outcome,"end":true}));
                 }
                 json!({"ev":"restart","mode":mode,"res":res})
             }
